@@ -13,6 +13,7 @@ import (
 
 	"verif/engine/collide"
 	"verif/engine/enumx"
+	"verif/engine/guard"
 	"verif/refdata"
 )
 
@@ -26,6 +27,7 @@ func init() {
 	gens["c04-runes"] = c04Runes
 	gens["c04-literals"] = c04Literals
 	gens["c04-collisions"] = c04Collisions
+	gens["c04-now"] = c04Now
 }
 
 // c04Collisions: pairs of DIFFERENT well-formed headers of equal length that collide under the hash
@@ -236,12 +238,38 @@ func checkSuccess(c *enumx.Ctx, h header) {
 		rest := line[strings.Index(line, "msg=")+4:]
 		wantRaw := strings.TrimSpace(rest)
 
+		keep := strings.Clone(line)
 		m, err := auparse.ParseLogLine(line)
+		if line != keep {
+			// a Go string is immutable; the text the caller handed in reads the same afterwards
+			c.Report("C04 input-line-modified", fmt.Sprintf("after ParseLogLine the caller's line reads %q; it was %q", line, keep), nil)
+			return
+		}
 		if err != nil || m == nil {
 			c.Report("C04 valid-header-rejected", fmt.Sprintf("ParseLogLine(%q) = (%v, %v)", line, m, err), nil)
 			return
 		}
 		ok := true
+		if roEvery++; roEvery%53 == 0 {
+			// the same line in memory that cannot be written (a string constant, a read-only file mapping), its last byte
+			// in front of an inaccessible page: same answer, no fault
+			if g := c04Region(); g != nil && len(line) <= g.Cap() {
+				ro := g.ReadOnly(line)
+				var m3 *auparse.AuditMessage
+				var err3 error
+				r := guard.Call(func() { m3, err3 = auparse.ParseLogLine(ro) })
+				if r == nil && m3 != nil {
+					_ = m3.ToMapStr()
+					_, _ = m3.Data()
+				}
+				bad := r != nil || err3 != nil || m3 == nil || m3.RecordType != m.RecordType || m3.Sequence != m.Sequence || strings.Clone(m3.RawData) != m.RawData
+				g.Writable()
+				if bad {
+					c.Report("C04 line-in-read-only-memory", fmt.Sprintf("ParseLogLine(%q) with the line in read-only memory: fault %v, result (%v, %v); on the heap it parses", keep, r, m3 != nil, err3), nil)
+					return
+				}
+			}
+		}
 		if uint16(m.RecordType) != h.typ {
 			c.Report("C04 record-type", fmt.Sprintf("ParseLogLine(%q).RecordType = %d, written type %d", line, m.RecordType, h.typ), nil)
 			ok = false
@@ -339,6 +367,20 @@ func checkSuccess(c *enumx.Ctx, h header) {
 	})
 }
 
+var roEvery int
+var c04Reg *guard.Region
+
+func c04Region() *guard.Region {
+	if c04Reg == nil {
+		r, err := guard.New(1 << 16)
+		if err != nil {
+			return nil
+		}
+		c04Reg = r
+	}
+	return c04Reg
+}
+
 var zoneList []*time.Location
 
 func zones() []*time.Location {
@@ -420,6 +462,24 @@ var (
 		" type=SYSCALL msg=audit(1.002:3): nested", " audit(1.1:1):", " \t tab", " msg=", " msg=msg=msg=", " arch=c000003e syscall=2 success=yes exit=0", " saddr=0200", "\x00", " \xff\xfe", " =",
 	}
 )
+
+// c04Now: records stamped around the present (the real clock of the machine that runs the check): seconds = now + d for
+// d from ten minutes ago to a day ahead - a record from a host whose clock runs ahead, a replayed log.  The header is
+// reported as written, whatever the reader's clock says.
+func c04Now(c *enumx.Ctx) {
+	now := time.Now().Unix()
+	for _, d := range []int64{-86400, -600, -301, -300, -299, -61, -60, -59, -2, -1, 0, 1, 2, 5, 30, 59, 60, 61, 120, 299, 300, 301, 600, 3599, 3600, 3601, 86400, 31536000} {
+		for _, ms := range []string{"000", "001", "500", "999"} {
+			for _, typ := range []uint16{1300, 1112, 1006} {
+				if !c.Mine() {
+					continue
+				}
+				checkSuccess(c, header{auparse.AuditMessageType(typ).String(), typ, strconv.FormatInt(now+d, 10), ms, "77", " a=b"})
+			}
+		}
+	}
+	c.Sample("type=SYSCALL msg=audit(<now+60>.000:77): a=b => @timestamp is now+60 s")
+}
 
 func c04Ms(c *enumx.Ctx) {
 	for ms := 0; ms < 1000; ms++ {
@@ -577,6 +637,17 @@ func c04Errors(c *enumx.Ctx) {
 					mut = line[:pos] + string(sb) + line[pos+1:]
 				}
 				checkCorrupt(c, mut, false)
+			}
+		}
+		// every multi-byte fragment of the shared menu (digits of other scripts, full-width punctuation, white space, control
+		// sequences, malformed UTF-8) INSERTED at and SUBSTITUTED for every position of the header
+		for pos := strings.Index(line, "msg=") + 4; pos < hdrEnd && pos < len(line); pos++ {
+			for _, r := range enumx.HostileRunes {
+				if !c.Mine() {
+					continue
+				}
+				checkCorrupt(c, line[:pos]+r+line[pos:], false)
+				checkCorrupt(c, line[:pos]+r+line[pos+1:], false)
 			}
 		}
 		// out-of-range numbers
